@@ -515,7 +515,7 @@ C14_GEN = {
               ("US2", "TRUE", "FALSE", "TRUE", 1, "FALSE", 120, {"verbose": 0, "show_output": True, "report_time": True}),
               ("US3", "FALSE", "TRUE", "FALSE", 0, "TRUE", 100, {"verbose": 1, "show_output": False, "report_time": False}),
               ("US1np", "TRUE", "TRUE", "FALSE", 1, "FALSE", 60, {"verbose": 0, "show_output": False, "report_time": False}),
-              ("US2", "TRUE", "TRUE", "FALSE", 1, "FALSE", 80, {"verbose": 0, "show_output": True, "report_time": False, "decorate": "basic"}),
+              ("US2", "TRUE", "TRUE", "FALSE", 1, "FALSE", 80, {"verbose": 2, "show_output": True, "report_time": False, "decorate": "basic"}),
               ("US1", "TRUE", "FALSE", "FALSE", 0, "FALSE", 30, {"verbose": 0, "show_output": False, "report_time": False, "decorate": "cdata"}),
               ("US2", "TRUE", "TRUE", "FALSE", 1, "FALSE", 80, {"verbose": 0, "show_output": True, "report_time": False, "logs": True}),
               ("US3", "TRUE", "FALSE", "TRUE", 0, "FALSE", 60, {"verbose": 1, "show_output": False, "report_time": False, "logs": True})],
